@@ -318,7 +318,7 @@ func runC18(r *Report, rng *rand.Rand, thorough bool) {
 	// incl. texts whose base64 form (after "user:") needs the two symbols that differ between the standard and the URL alphabet
 	// (incl. credentials that begin with the words the providers themselves put in front: the credential is attached as given)
 	creds := []string{"Bearer abc", "Bearer ", "Basic dXNlcjpwYXNz", "bearer lower", "tok", "a b", "p@ss:w0rd", "ünï", "x=y&z", "a~cret", "p?ssword", "пароль", ">>>???~~~", "", "very-long-" + strings.Repeat("k", 40)}
-	nReq := 120
+	nReq := 5*len(creds) + 60
 	if thorough {
 		nReq = 2000
 	}
@@ -362,12 +362,17 @@ func runC18(r *Report, rng *rand.Rand, thorough bool) {
 			req.AddCookie(&http.Cookie{Name: "auth", Value: "stale"})
 			cks = append(cks, [2]string{"auth", "stale"})
 		}
+		// every provider meets every credential of the pool (the first 5 x len(creds) requests), then random pairs
 		cred := creds[rng.Intn(len(creds))]
+		kind := rng.Intn(5)
+		if i < 5*len(creds) {
+			cred, kind = creds[i/5], i%5
+		}
 		var prov interface {
 			Intercept(context.Context, *http.Request) error
 		}
 		var pterm, what string
-		switch rng.Intn(5) {
+		switch kind {
 		case 0:
 			user := []string{"u", "user name", "ünï", "", "bob", "joe", "анна"}[rng.Intn(7)] // no ':' (RFC 7617)
 			prov, _ = securityprovider.NewSecurityProviderBasicAuth(user, cred)
